@@ -49,10 +49,14 @@ def model_check(ctx: Ctx, label, c, *, level=80, workers=16, timeout=1800, need_
     return r
 
 
-def simulate(ctx: Ctx, label, c, *, num, depth, seed, shards=None):
-    """-simulate in parallel shards (TLC simulation is single-threaded per process)."""
+def simulate(ctx: Ctx, label, c, *, num, depth, seed, shards=None, init_first=True):
+    """-simulate in parallel shards (TLC simulation is single-threaded per process).  init_first: the first command of a
+    behaviour is an accepted initialize (otherwise almost half of the random behaviours spend their command budget on
+    refusals of an uninitialised simulator; C04 keeps both kinds)."""
     from concurrent.futures import ThreadPoolExecutor
-    files, mod, cfg = tlc.mc_files("MC_DEVS_sim", "DEVS", tla_consts(c), invariants=["NeverBeyondEnd"], level=depth + 5)
+    files, mod, cfg = tlc.mc_files("MC_DEVS_sim", "DEVS", tla_consts(c), invariants=["NeverBeyondEnd"], level=depth + 5,
+                                   extra_defs="InitFirstC == ncmd = 0 \\/ nrep >= 1" if init_first else "",
+                                   constraints=["InitFirstC"] if init_first else [])
     shards = shards or max(1, min(8, num // 15))
     per = (num + shards - 1) // shards
 
